@@ -1,18 +1,18 @@
 SPECIFICATION Spec
 CONSTANTS
-  NSlots = 3
-  InitCap = 4
+  NSlots = 2
+  InitCap = 3
   MaxTracks = 5
   MaxSec = 2
-  MaxIter = 3
-  Charge = FALSE
+  MaxIter = 4
+  Charge = TRUE
   MaxPrim = 2
-  MaxE = 2
+  MaxE = 3
   TwoM = 1
-  PTypes = {0, 1}
-  AllowOut = TRUE
-  MinAliveE = 0
-  PrimE = {2}
+  PTypes = {0, 1, 2}
+  PrimE = {2, 3}
+  AllowOut = FALSE
+  MinAliveE = 1
 INVARIANT Refines
 INVARIANT UniqueIds
 INVARIANT NoBlank
@@ -22,5 +22,5 @@ INVARIANT GeoCopyValid
 INVARIANT CountersExact
 INVARIANT LedgerEvent
 INVARIANT WithinCapacity
-VIEW View
+INVARIANT EmitScript
 CHECK_DEADLOCK FALSE
